@@ -109,6 +109,8 @@ func runCheck(id, tier string) int {
 		fmt.Fprintln(os.Stderr, err)
 		return 2
 	}
+	fds := loadFindings()
+	knownSeen := map[int]bool{}
 	var reports []partReport
 	var viols []violation
 	var samples []any
@@ -120,7 +122,7 @@ func runCheck(id, tier string) int {
 		var smp []any
 		switch p.Kind {
 		case "explore":
-			rep, vs, smp, err = runExplore(b, id, p, tier)
+			rep, vs, smp, err = runExplore(b, id, p, tier, fds, knownSeen)
 		case "enum":
 			rep, vs, smp, err = runEnum(b, id, p, tier)
 		}
@@ -149,8 +151,6 @@ func runCheck(id, tier string) int {
 		return 3
 	}
 	// classify violations against the known-findings file
-	fds := loadFindings()
-	knownSeen := map[int]bool{}
 	var unknown []violation
 	for _, v := range viols {
 		matched := false
@@ -265,7 +265,17 @@ func normalize(s string) string {
 	return sb.String()
 }
 
-func runExplore(b *built, prop string, p part, tier string) (partReport, []violation, []any, error) {
+func knownFor(fds []finding, prop, scen, params string) []explore.Known {
+	var ks []explore.Known
+	for i := range fds {
+		if fds[i].matches(prop, scen, params, fds[i].Class, "\x00") || fds[i].matchesStatic(prop, scen, params) {
+			ks = append(ks, explore.Known{Idx: i, Class: fds[i].Class, Msg: fds[i].Msg})
+		}
+	}
+	return ks
+}
+
+func runExplore(b *built, prop string, p part, tier string, fds []finding, knownSeen map[int]bool) (partReport, []violation, []any, error) {
 	rep := partReport{Name: p.Name, Kind: "explore", Scenario: p.Scen, BoundDone: -1}
 	t0 := time.Now()
 	it := tier
@@ -277,6 +287,12 @@ func runExplore(b *built, prop string, p part, tier string) (partReport, []viola
 		return rep, nil, nil, fmt.Errorf("instances of %s: %v", p.Scen, err)
 	}
 	rep.Instances = len(inst)
+	if len(inst) == 0 {
+		rep.Exhaustive = true
+		rep.BoundDone = 0
+		rep.Notes = append(rep.Notes, "no instances in this tier")
+		return rep, nil, nil, nil
+	}
 	depths := p.Depths[tier]
 	budget := p.Budget[tier]
 	deadline := time.Time{}
@@ -295,11 +311,15 @@ func runExplore(b *built, prop string, p part, tier string) (partReport, []viola
 		_ = many
 		pl.expandIf = func(depth int) bool { return depth >= 2 }
 		for _, ps := range inst {
-			pl.push(&explore.Task{Scen: p.Scen, Params: ps, Depth: d, Expand: pl.expandIf(d)})
+			pl.push(&explore.Task{Scen: p.Scen, Params: ps, Depth: d, Expand: pl.expandIf(d), Known: knownFor(fds, prop, p.Scen, ps.Key())})
 		}
 		pl.run()
 		if pl.stopErr != nil {
 			return rep, nil, nil, pl.stopErr
+		}
+		if a.diverged > 0 {
+			out, _ := exec.Command("sh", "-c", "grep -h -A8 DIVERGENCE "+b.dir+"/stderr.* | head -60").CombinedOutput()
+			fmt.Fprintf(os.Stderr, "%s\n", out)
 		}
 		if a.diverged > 0 {
 			return rep, nil, nil, fmt.Errorf("NONDETERMINISM: %d replay divergences in %s (%s)", a.diverged, p.Scen, a.divMsg)
@@ -318,6 +338,9 @@ func runExplore(b *built, prop string, p part, tier string) (partReport, []viola
 		}
 		rep.BoundDone = d
 		last = a
+		for k := range a.knownHits {
+			knownSeen[k] = true
+		}
 		if len(a.found) > 0 || len(a.crashes) > 0 {
 			break
 		}
@@ -330,6 +353,13 @@ func runExplore(b *built, prop string, p part, tier string) (partReport, []viola
 	rep.Transitions = a.steps
 	rep.States = len(a.sigs)
 	rep.Redundant = a.redundant
+	if len(a.knownHits) > 0 {
+		kh := map[string]int{}
+		for k, v := range a.knownHits {
+			kh[fmt.Sprintf("finding#%d", k)] = v
+		}
+		rep.Extra = map[string]any{"executions_explained_by_known_findings": kh}
+	}
 	rep.Contended = a.contended
 	rep.Outcomes = len(a.outcomes)
 	rep.Exhaustive = rep.BoundDone >= 0 && rep.BoundPartial == 0
